@@ -414,6 +414,8 @@ def make_scripted(fsic, spec, bases=None, extra_attrs=None):
             if hook == 'eval':
                 passes = p.get('passes', [])
                 act = passes[k - 1] if k - 1 < len(passes) else p.get('default', {'a': 'delta', 'd': [0.0] * len(endo)})
+                if p.get('moving_until') is not None and k < p['moving_until']:
+                    act = p['moving']  # (long runs: every pass before this one moves)
                 rec['act'] = act.get('a')
                 if act.get('a') == 'npwarn':
                     rec['npwarn_j'] = act['j']
